@@ -122,7 +122,10 @@ def replay_history(clsname, comp, data, hist, bufsize, check=True):
     r = Ref(data)
     for i, op in enumerate(hist):
         try:
-            a = apply_impl(f, op)
+            with core.time_limit(3 if bufsize < 100 else 20):
+                a = apply_impl(f, op)
+        except core.Watchdog:
+            return f, r, ("no-termination", i, "the operation did not return within %d s" % (3 if bufsize < 100 else 20))
         except Exception as e:  # noqa
             return f, r, ("exception", i, "%s: %s" % (type(e).__name__, e))
         b = apply_ref(r, op)
@@ -175,6 +178,10 @@ def work_closed(item):
             edges += 1
             if mis is not None:
                 viols.append(_viol("closed", clsname, pk, L, bufsize, h2, mis, level))
+                if len(viols) >= 8:
+                    # the object is broken on this payload: no point in exploring further from broken states
+                    return {"states": len(seen), "edges": edges, "viol": viols[:5], "depth": maxdepth, "execs": edges,
+                            "cap": "stopped after 8 disagreements on one payload"}
                 continue
             k = canon(f2)
             if k not in seen:
@@ -194,6 +201,7 @@ def work_seq(item):
     ops = ops_for(L, scale)
     viols = []
     n = 0
+    nbad = 0
     steps = 0
     states = set()
     for first in first_ops:
@@ -215,8 +223,11 @@ def work_seq(item):
             steps += len(hist)
             if mis is not None:
                 v = _viol("seq", clsname, pk, L, bufsize, hist, mis)
+                nbad += 1
                 if len(viols) < 5:
                     viols.append(v)
+                if nbad >= 8:
+                    return {"states": len(states), "edges": steps, "viol": viols, "execs": n, "cap": "stopped after 8 disagreements on one payload"}
             else:
                 states.add(canon(f)[:2] + canon(f)[4:6])
     return {"states": len(states), "edges": steps, "viol": viols, "execs": n}
@@ -329,7 +340,14 @@ def run(ctx):
         items = [it for it in items if it[0] == ctx.only]
     tot = collections.Counter()
     closed_done = 0
+    nviol = 0
     for kind, res in core.pmap(_dispatch, items, chunksize=1):
+        nviol += len(res["viol"])
+        if nviol >= 60:
+            ctx.cap("stopped early: 60 disagreements reported, the remaining work items were not run")
+            for v in res["viol"]:
+                ctx.violation(*v)
+            break
         tot[kind + "_states"] += res["states"]
         tot[kind + "_edges"] += res["edges"]
         tot[kind + "_execs"] += res["execs"]
